@@ -78,7 +78,8 @@ template <class TM, class SM> struct Harness {
       { Opt as2; as2.setOptimizationFlags(flags_of(cfg.mask ^ 0xee)); as2.setIntegralNumSteps(5); Prob q2 = opt_problem<D>(S, cfg.N + 1, 4321, -3.0); if (as2.setInitState(q2.T, q2.P, q2.t0, q2.bc)) (void)as2.getDimension();
         as2 = opt; WS wa; Eigen::VectorXd ga; const double fa = as2.evaluate(x, ga, tc, wc, rc, &wa); ++c.st.comparisons;
         if (!bits_equal(fa, f0) || ga.size() != g.size() || !bits_equal(ga.data(), g.data(), g.size())) { fail("gradient(assigned optimizer)", fmt("an optimizer assigned from this one (after serving another problem) returns cost %.17g / another gradient; the original returns %.17g", fa, f0)); return; }
-        Eigen::VectorXd gd, ge; const double fd = opt.evaluate(x, gd, tc, wc, rc, &ws, DescendingExecutor()), fe = opt.evaluate(x, ge, tc, wc, rc, &ws, EvenOddExecutor()); ++c.st.comparisons;
+        Eigen::VectorXd gd, ge; (void)eval(xs[1 - xi], dummy, &ws);   // the workspace last served ANOTHER vector (other durations)
+        const double fd = opt.evaluate(x, gd, tc, wc, rc, &ws, DescendingExecutor()); (void)eval(xs[1 - xi], dummy, &ws); const double fe = opt.evaluate(x, ge, tc, wc, rc, &ws, EvenOddExecutor()); ++c.st.comparisons;
         if (!bits_equal(fd, f0) || !bits_equal(fe, f0) || !bits_equal(gd.data(), g.data(), g.size()) || !bits_equal(ge.data(), g.data(), g.size())) { fail("gradient(user executor)", fmt("descending / even-odd executors on a used workspace return cost %.17g / %.17g, the serial executor %.17g (or another gradient)", fd, fe, f0)); return; } }
       Eigen::VectorXd d1(n), d2(n);
       auto rich = [&](int i, double h) { Eigen::VectorXd y = x; double f[4]; const double st[4] = {h, -h, 2 * h, -2 * h}; for (int q = 0; q < 4; ++q) { y(i) = x(i) + st[q]; f[q] = eval(y, dummy, &ws); } return (8.0 * (f[0] - f[1]) - (f[2] - f[3])) / (12.0 * h); };
